@@ -227,6 +227,22 @@ CLAIMED = {
             'TLC supplies the operation / state matrix and the identity oracle; text formatting fidelity is decided by the '
             'conformance runs. Trusted: typed value generation and projection in vh/drivers/c14.py.',
             '5/C14'),
+    'C18': ('TLA+ model of result serialization with the factory table as data (ResultSerde.tla) model-checked by TLC over the '
+            'full field-class matrix; every matrix entry and the output of all 19 evaluation functions written / loaded with the '
+            'real API and validated by TLC (TraceResultSerde); regions rebuilt from their dictionaries validated against the C01 '
+            'lattice specification (TraceCartRegion)',
+            'TLC checks EveryClassLoadable, LoadsAsSameClass, FieldsSurvive and the liveness EventuallyLoaded for all 1 800 '
+            'combinations of result class x statistic class (finite, +-inf, NaN, None) x quantile class x distribution class x '
+            'names class; the factory table with the formerly mis-spelt key is refuted. Each combination is realised as a real '
+            'result object and round-tripped through csep.write_json / csep.load_evaluation_result, as are the results of every '
+            'gridded and catalog-based evaluation function run on normal, empty-observation, zero-rate-hit, single-event and '
+            'undersampled inputs; TLC accepts a record only if class and field classes are those the model yields and name, '
+            'status, statistic, quantile, numeric distribution, names and minimum magnitude compare equal. Unmasked abstract '
+            'regions (C01 generator) are rebuilt from to_dict() and must give the original index for every probe point and '
+            'satisfy the lattice specification.',
+            'TLC supplies the class matrix and dispatch model; value equality is established by the harness (NaN = NaN, tuples = '
+            'lists). Trusted: projections in vh/drivers/c18.py.',
+            '5/C18'),
 }
 
 NOT_YET = 'check not built yet in this round (specification planned in DESIGN.md section 5); not claimed until it exists'
